@@ -1072,16 +1072,10 @@ theorem loadJson_true_spec (f : JsonFile) (hf : JsonWF f) (hrt : Rooted f)
   let mz : Mgr := { m3 with ref := r5, lastLen := newLen }
   let mf : Mgr := { m3 with ref := r6, lastLen := newLen }
   refine ⟨f.roots.rebuild us, mf, ?_, ?_, ?_, ?_, pn3.congr rfl rfl, rfl, ?_, ?_, ?_, ?_⟩
-  · unfold loadJson
-    simp only [if_true]
-    refine (M.bind_eq_ok ec0).trans ?_
-    refine (M.bind_eq_ok ed).trans ?_
-    refine (M.bind_eq_ok ero).trans ?_
-    refine (M.bind_eq_ok emk).trans ?_
-    have hksm : (pure f.roots.values : M (List Int)) m3 = (.ok f.roots.values, m3) := rfl
-    refine (M.bind_eq_ok hksm).trans ?_
-    refine (M.bind_eq_ok er).trans ?_
-    simp only [erl]
+  · rw [loadJson_true_eq, h0, jsonTry_ok f true hsome tgt m2 m3 { m3 with ref := r4 } added us
+      (jsonHeader_true f tgt m1 m2 ed ero) emk er]
+    unfold jsonFinish
+    simp only [erl, if_true]
     have hfin : (liftE (Except.ok ()) >>= fun _ => dmpAssertConsistent >>= fun _ =>
         configure (some true) >>= fun _ => (pure () : M Unit))
         { m3 with ref := r5 } = (.ok (), mz) := by
